@@ -459,8 +459,20 @@ class InterpreterAnalyzer(ASTTemplate):
     def _resolve_aggregation_operand(self, node: AST.Aggregation) -> Any:
         """Resolve the operand for an aggregation node."""
         if self.is_from_having:
-            if node.operand is not None:
-                self.visit(node.operand)
+            if node.operand is not None and self.aggregation_dataset is not None:
+                op_comp = self.visit(node.operand)
+                comps = {
+                    name: copy(comp)
+                    for name, comp in self.aggregation_dataset.components.items()
+                    if comp.role != Role.MEASURE
+                }
+                comps[op_comp.name] = Component(
+                    name=op_comp.name,
+                    data_type=op_comp.data_type,
+                    role=Role.MEASURE,
+                    nullable=op_comp.nullable,
+                )
+                return Dataset(name=self.aggregation_dataset.name, components=comps, data=None)
             return self.aggregation_dataset
         if self.is_from_regular_aggregation and self.regular_aggregation_dataset is not None:
             operand = self.regular_aggregation_dataset
@@ -520,13 +532,22 @@ class InterpreterAnalyzer(ASTTemplate):
                 groupings = self._apply_time_agg_grouping(groupings, grouping_op)
                 self.aggregation_dataset = None
             if node.having_clause is not None:
+                having_source = (
+                    self.regular_aggregation_dataset
+                    if self.is_from_regular_aggregation
+                    and self.regular_aggregation_dataset is not None
+                    else operand
+                )
                 self.aggregation_dataset = Dataset(
-                    name=operand.name,
-                    components=deepcopy(operand.components),
+                    name=having_source.name,
+                    components=deepcopy(having_source.components),
                     data=None,
                 )
-                self.aggregation_grouping = extract_grouping_identifiers(
-                    operand.get_identifiers_names(), node.grouping_op, groupings
+                self.aggregation_grouping = (
+                    extract_grouping_identifiers(
+                        operand.get_identifiers_names(), node.grouping_op, groupings
+                    )
+                    or operand.get_identifiers_names()
                 )
                 self.is_from_having = True
                 self.visit(node.having_clause)
@@ -1136,8 +1157,6 @@ class InterpreterAnalyzer(ASTTemplate):
                             comp_name=id_name,
                             dataset_name=self.aggregation_dataset.name,
                         )
-                if len(self.aggregation_dataset.get_measures()) != 1:
-                    raise ValueError("Only one measure is allowed")
                 # Deepcopy is necessary for components to avoid changing the original dataset
                 self.aggregation_dataset.components = {
                     comp_name: deepcopy(comp)
